@@ -33,7 +33,7 @@ from engines import targets_c20 as T
 from vlib.core import HarnessError, bad, inconclusive, ok
 
 LEVEL = 'exploration'
-RULE = ('hist: Hypothesis lists of up to 45 steps [new type | op actor slot '
+RULE = ('hist: Hypothesis lists of 6-40 steps [new type | op actor slot '
         'method args | copy | hand src->dst | drop | fork | exit] with '
         'index-modulo addressing over main thread, 1-3 client threads, 0-2 '
         'forked clients and 7 referent types; non-trivial when the referent '
@@ -68,7 +68,9 @@ ASSUMPTIONS = [
     '(acquire on a held lock, get on an empty queue, join with unfinished '
     'tasks) are replaced by their non-blocking / 20 ms-timeout variants',
     'Pool referents: 1-2 workers, no timeouts / maxtasksperchild, failing '
-    'tasks all raise the same exception, no chunked imap',
+    'tasks all raise the same exception, no chunked imap; the reference is a '
+    'local billiard Pool; the Pool referent is never asked to terminate '
+    '(terminate() can block for ever on this tree), its server is killed',
 ]
 SHARDS = {'quick': 4, 'thorough': 16}
 WALL_LIMIT = {'quick': 600, 'thorough': 3600}
@@ -91,12 +93,44 @@ class _Stuck(Exception):
 _M = {'mgr': None, 'pid': None, 'cases': 0, 'dirty': False, 'started': 0}
 
 
-def _shutdown_manager():
+def _descendants(pid):
+    """pids of all live descendants of ``pid`` (children first)"""
+    kids = {}
+    for name in os.listdir('/proc'):
+        if name.isdigit():
+            try:
+                with open('/proc/%s/stat' % name) as f:
+                    rest = f.read().rsplit(')', 1)[1].split()
+                kids.setdefault(int(rest[1]), []).append(int(name))
+            except (OSError, IndexError, ValueError):
+                pass
+    out, todo = [], [pid]
+    while todo:
+        for k in kids.get(todo.pop(), []):
+            out.append(k)
+            todo.append(k)
+    return out
+
+
+def _shutdown_manager(hard=False):
+    """Stop the server.  ``hard``: the server owns a Pool whose terminate()
+    may never return (pool defects outside this property), so the server and
+    everything below it is killed instead of asked."""
+    import shutil
     m, _M['mgr'] = _M['mgr'], None
     if m is None or _M['pid'] != os.getpid():
         return
     proc = m._process
+    address = m.address
+    below = _descendants(proc.pid) if proc is not None else []
     try:
+        if hard and proc is not None:
+            for pid in [proc.pid] + below:
+                try:
+                    os.kill(pid, 9)
+                except OSError:
+                    pass
+            proc.join(10)
         m.shutdown()
     finally:
         if proc is not None and proc.is_alive():
@@ -105,6 +139,14 @@ def _shutdown_manager():
             if proc.is_alive():
                 os.kill(proc.pid, 9)
                 proc.join(5)
+        for pid in below:                 # nothing the server forked survives
+            try:
+                os.kill(pid, 9)
+            except OSError:
+                pass
+        d = os.path.dirname(address) if isinstance(address, str) else ''
+        if os.path.basename(d).startswith('pymp-') and os.path.isdir(d):
+            shutil.rmtree(d, ignore_errors=True)   # left by a killed server
 
 
 atexit.register(_shutdown_manager)
@@ -456,27 +498,35 @@ def _release_local(model):
 # part hist
 # ---------------------------------------------------------------------------
 
-_A = st.integers(0, 11)
+def _sel(n):
+    return st.sampled_from(list(range(n)))
+
+
+_A = _sel(12)
 _I = st.integers(-4, 8)
-_OPSTEP = st.tuples(st.just('op'), _A, _A, st.integers(0, 63), _I, _VAL)
-_STEP = st.one_of(
-    st.tuples(st.just('new'), st.integers(0, 6), _I, _VAL),
-    _OPSTEP, _OPSTEP, _OPSTEP, _OPSTEP,
-    st.tuples(st.just('copy'), _A, _A),
-    st.tuples(st.just('hand'), _A, _A, _A),
-    st.tuples(st.just('hand'), _A, _A, _A),
-    st.tuples(st.just('drop'), _A, _A),
-    st.tuples(st.just('drop'), _A, _A),
-    st.tuples(st.just('fork'), st.integers(0, 1)),
-    st.tuples(st.just('exit'), st.integers(0, 3), st.booleans()),
+
+
+def _weighted(*pairs):
+    """one_of drops repeated strategy objects, so weights need fresh ones"""
+    return st.one_of(*[make() for make, w in pairs for _ in range(w)])
+
+
+_STEP = _weighted(
+    (lambda: st.tuples(st.just('new'), _sel(7), _I, _VAL), 2),
+    (lambda: st.tuples(st.just('op'), _A, _A, _sel(64), _I, _VAL), 9),
+    (lambda: st.tuples(st.just('copy'), _A, _A), 2),
+    (lambda: st.tuples(st.just('hand'), _A, _A, _A), 2),
+    (lambda: st.tuples(st.just('drop'), _A, _A), 3),
+    (lambda: st.tuples(st.just('fork'), st.integers(0, 1)), 1),
+    (lambda: st.tuples(st.just('exit'), st.integers(0, 3), st.booleans()), 1),
 )
 
 
 def hist_cases():
-    return st.fixed_dictionaries({
-        'threads': st.integers(1, 3),
-        'steps': st.lists(_STEP.map(list), min_size=1, max_size=45),
-    })
+    steps = st.integers(6, 40).flatmap(
+        lambda n: st.lists(_STEP.map(list), min_size=n, max_size=n))
+    return st.fixed_dictionaries({'threads': st.sampled_from([1, 2, 3]),
+                                  'steps': steps})
 
 
 class _Hist:
@@ -773,8 +823,8 @@ _KINDS = ['append', 'setitem', 'put', 'rmw', 'pop', 'dpop', 'setdefault']
 
 def conc_cases():
     return st.fixed_dictionaries({
-        'threads': st.integers(1, 3),
-        'procs': st.integers(0, 2),
+        'threads': _sel(4).map(lambda x: max(x, 1)),
+        'procs': _sel(3),
         'm': st.integers(3, 25),
         'kinds': st.lists(st.sampled_from(_KINDS), min_size=1, max_size=7,
                           unique=True),
@@ -936,15 +986,14 @@ def _conc_oracle(px, obs, n, m, kinds):
 
 _RTYPES = ['Event', 'Semaphore', 'BoundedSemaphore', 'RLock', 'Condition',
            'Barrier', 'JoinableQueue', 'Pool']
-_ROP = st.tuples(st.integers(0, 1), st.integers(0, 63), _I, _VAL)
+_ROP = st.tuples(_sel(2), _sel(64), _I, _VAL)
 
 
 def registered_cases():
+    ops = st.integers(4, 25).flatmap(
+        lambda n: st.lists(_ROP.map(list), min_size=n, max_size=n))
     return st.fixed_dictionaries({
-        'type': st.integers(0, len(_RTYPES) - 1),
-        'init': st.integers(0, 5),
-        'ops': st.lists(_ROP.map(list), min_size=1, max_size=25),
-    })
+        'type': _sel(len(_RTYPES)), 'init': _sel(6), 'ops': ops})
 
 
 class _Owner:
@@ -1201,56 +1250,71 @@ def _pool_plan(msel, i, v):
         (lambda: sorted(map(f, xs)))
 
 
-def _local_pool_gives(remote, nworkers):
-    from billiard.pool import Pool
-    lp = Pool(nworkers)
-    try:
-        return T.outcome(remote, lp)
-    finally:
-        lp.terminate()
-        lp.join()
+def _stop_local_pool(lp):
+    """Pool.terminate() of the local reference pool, with a way out"""
+    pids = [w.pid for w in list(lp._pool)]
+    t = threading.Thread(target=lambda: (lp.terminate(), lp.join()), daemon=True)
+    t.start()
+    t.join(20)
+    if t.is_alive():
+        for pid in pids:
+            try:
+                os.kill(pid, 9)
+            except OSError:
+                pass
+        t.join(30)
 
 
 def _execute_pool(case):
+    """The local equivalent of a Pool proxy is a local billiard Pool (it has
+    manners of its own, e.g. a failing imap item surfaces as
+    Exception(ExceptionInfo)); the plain computation is only recorded."""
+    from billiard.pool import Pool
     mgr = _manager()
     nworkers = 1 + int(case['init']) % 2
-    box = [mgr.Pool(nworkers)]
     labels = {'type:Pool'}
     nontrivial = False
     out = None
+    helper = _ThreadActor()
+    # forked before this process owns any proxy: its workers hold none
+    lp = Pool(nworkers)
+    box = []
     try:
+        box.append(mgr.Pool(nworkers))
         for c, msel, i, v in case['ops'][:12]:
             kind, via, remote, here = _pool_plan(int(msel), i, v)
-            got = T.outcome(remote, box[0])
-            want = T.outcome(here)
+            got = helper.run(lambda: T.outcome(remote, box[0]))
+            want = helper.run(lambda: T.outcome(remote, lp))
             labels.add('op:Pool.' + kind)
             if want[0] == 'exc':
                 labels.add('raises:' + want[1].split('.')[-1])
+            if want != T.outcome(here):
+                labels.add('local-pool-differs-from-plain:' + kind)
             if via != 'Pool' or want[0] == 'exc':
                 nontrivial = True
-            if got != want and _local_pool_gives(remote, nworkers) != want:
-                # a local billiard Pool does not give the plain result either:
-                # whatever this is, the proxy is not what makes the difference
-                labels.add('pool-itself-differs')
-                continue
             if got != want:
                 sig = {'Iterator': 'C20/registered/Iterator-next'}.get(
                     via, 'C20/registered/%s-%s' % (via, kind))
-                out = bad(sig, 'Pool proxy, %s: proxy gave %r, computing '
-                          'locally gives %r' % (kind, got, want))
+                out = bad(sig, 'Pool proxy, %s: proxy gave %r, a local Pool '
+                          'gives %r' % (kind, got, want))
                 break
+        if out is None:
+            gc.collect()
+            n = mgr._number_of_objects()
+            if n != 1:
+                out = bad('C20/registered/not-disposed', '%d objects in the '
+                          'server after every result proxy was released; only '
+                          'the Pool should be left' % n)
+    except _Stuck as exc:
+        out = inconclusive(str(exc))
     finally:
-        try:
-            box[0].terminate()
-        except Exception:
-            _M['dirty'] = True
+        # Pool.terminate() inside the server can block for ever (pool defect,
+        # not this property): kill the server tree, then let the proxy go
+        _shutdown_manager(hard=True)
         del box[:]
+        _stop_local_pool(lp)
+        helper.stop()
         gc.collect()
-    if out is None:
-        left = mgr._number_of_objects()
-        if left:
-            out = bad('C20/registered/not-disposed', '%d objects left after the '
-                      'Pool proxy and its result proxies were released' % left)
     return out or ok(nontrivial, sorted(labels))
 
 
